@@ -2,6 +2,7 @@ package main
 
 import (
 	"fmt"
+	"os"
 	"go/types"
 	"sort"
 	"strings"
@@ -22,6 +23,7 @@ type FuncResult struct {
 	Paths      int
 	CallsiteHits map[string]int
 	SafetySkipped int
+	CallsiteAssumptions map[string]int
 }
 
 // runTop executes the function once (probe or final) and returns the executor.
@@ -31,6 +33,9 @@ func (V *Verifier) runTop(fn *ssa.Function, key string, fs *FuncSpec, cands map[
 	X.Unroll = V.unroll
 	if fs != nil && fs.Opts["safety"] == "off" {
 		X.SafetyOff = true
+	}
+	if fs != nil && fs.Opts["safety"] == "bounds" {
+		X.SafetyBounds = true
 	}
 	X.TopFn, X.TopKey, X.TopSpec = fn, key, fs
 	X.probe = probe
@@ -263,6 +268,9 @@ func (V *Verifier) VerifyFunc(key string, lockMode bool) *FuncResult {
 			if obls[i].Status != "proved" && cc.C.Alive {
 				cc.C.Alive = false
 				changed = true
+				if os.Getenv("GOVC_DBG") != "" {
+					fmt.Fprintf(os.Stderr, "houdini: drop %q (%s: %s)\n", cc.C.Desc, cc.What, obls[i].Status)
+				}
 			}
 		}
 		if !changed {
@@ -284,6 +292,7 @@ func (V *Verifier) VerifyFunc(key string, lockMode bool) *FuncResult {
 	}
 	res.Obls = X.Obls
 	res.SafetySkipped = X.SafetySkipped
+	res.CallsiteAssumptions = X.CallsiteAssumptions
 	V.attachReplayTerms(X, key, res)
 	res.Trusted, res.Uncontr, res.Inlined, res.Spawns = X.UsedTrusted, X.Uncontracted, X.Inlined, X.Spawns
 	res.CallsiteHits = map[string]int{}
@@ -453,7 +462,9 @@ func (V *Verifier) attachReplayTerms(X *Exec, key string, res *FuncResult) {
 		}
 		for _, o := range res.Obls {
 			if !o.WantSat {
-				o.Vals, o.ValNames, o.Prefer = terms, okNames, prefer
+				o.Vals = append(append([]*Term{}, terms...), o.AuxVals...)
+				o.ValNames = append(append([]string{}, okNames...), o.AuxNames...)
+				o.Prefer = prefer
 			}
 		}
 	}
